@@ -158,6 +158,25 @@ func c11BootstrapLenient(c *Ctx) {
 			}
 		}
 	}
+	// and the first pass always yields a resolver built from all files of the image: "no file has a top-level extend"
+	// says nothing about extensions declared inside messages
+	okRes, nRet := true, 0
+	for _, r := range returnsOf(bootFn) {
+		if len(r.Results) != 2 || !isNilConst(spilledResult(r, r.Results[1])) && !dependsOnCall(r.Results[0], func(cc *ssa.CallCommon) bool { return true }) {
+			continue
+		}
+		if isNilConst(r.Results[0]) && !isNilConst(r.Results[1]) {
+			continue // error return
+		}
+		nRet++
+		if !dependsOnCall(r.Results[0], func(cc *ssa.CallCommon) bool {
+			o := staticCalleeObj(cc)
+			return o != nil && o.Name() == "NewResolver"
+		}) {
+			okRes = false
+		}
+	}
+	c.Ob(rule, "bootstrapResolver/always-a-resolver", boot.Decl.Pos(), okRes && nRet > 0, true, "every success return of bootstrapResolver (%d) hands back protoencoding.NewResolver(<the files>): %v", nRet, okRes)
 	if n == 0 {
 		c.Fail(rule, "anchor", token.NoPos, "no call of bootstrapResolver found")
 	}
